@@ -86,13 +86,27 @@ int cmdRun(int argc, char** argv) {
 			JArr ju;
 			for (auto& t : U) ju.add(relabelName(t));
 			// variants: plain load+save; strings of known blocks edited before saving; a copy (constructed / assigned) is saved
-			const char* variants[] = {"plain", "edited", "copied", "assigned", "duplicate-strings"};
+			const char* variants[] = {"plain", "edited", "copied", "assigned", "duplicate-strings", "zero-sized-unknown-only"};
 			const std::string original = bytes;
-			for (int vi = 0; vi < 5; vi++)
+			const std::string pristine = readFile(samplePath(c["file"].s));
+			for (int vi = 0; vi < 6; vi++)
 				for (int def = 0; def < 2; def++) {
 					if (vi >= 2 && ((k + def) % 2)) continue; // copies: alternate the save option to bound the work
 					bytes = original;
 					if (vi == 4 && !duplicateString(bytes)) continue;
+					if (vi == 5) {
+						// the only block of an unknown type is an empty one (a marker block appended by a tool): the file as
+						// shipped plus one zero-sized block whose type the library has no class for
+						if (U.size() != 1) continue;
+						NifFile mk;
+						if (loadFromString(mk, pristine) != 0) continue;
+						mk.GetHeader().AddBlock(std::make_unique<NiUnknown>(0u));
+						bytes = saveToString(mk, false, false);
+						HeaderInfo hh = parseHeader(bytes);
+						if (!hh.ok || !hh.hasSizes || hh.sizes.empty() || hh.sizes.back() != 0) continue;
+						ju = JArr();
+						ju.add(hh.types[hh.tidx.back()]);
+					}
 					ContentIds ids;
 					NifFile loaded;
 					int rc = loadFromString(loaded, bytes);
